@@ -49,7 +49,7 @@ def meta(tier):
                  'inf/nan, datetimes at year 1/100/9999) and unary x pool through evaluate_expression; (b) every library function x '
                  'argument lists of length 0..arity+1 from all types under LibrarySpy, debug on/off, every failing call repeated through evaluate_expression with options None / {} / debug without a logFn key, failing expressions through the exported data functions without options, and the debug-mode report of calls failing inside data-function expressions (python API and script functions, with / without the variables object); (c) fault enumeration: in '
                  'generated programs the k-th host call raises each of KeyError, ZeroDivisionError, RecursionError, a custom '
-                 'Exception, ValueArgsError(return value) and BareScriptRuntimeError (must propagate), for every call position k, '
+                 'Exception, five message-less exceptions (NotImplementedError(), AssertionError(), MemoryError(), KeyError(), StopIteration()), ValueArgsError(return value) and BareScriptRuntimeError (must propagate), for every call position k, '
                  'compared with the reference call-wrapper semantics; (d) generated programs with / % ** over adversarial initial '
                  'globals. Non-trivial: an operand pair that is not both null, a library call with >= 1 argument, an injected '
                  'fault that fired, a program that logged; distinct = distinct case text/arguments.'),
@@ -257,6 +257,7 @@ def run_library(spec, acc, api, con):
             lib_case(fname, [x if callable(x) else copy.deepcopy(x) for x in args], True, acc, api, con, spy)
         data_functions_without_options(acc, api)
         data_functions_report_failures(acc, api)
+        script_function_failures(acc, api)
 
 
 DOCUMENTED_FAILURE = {'arrayIndexOf': -1, 'arrayLastIndexOf': -1, 'arrayLength': 0, 'objectHas': False, 'stringIndexOf': -1,
@@ -383,6 +384,50 @@ def data_functions_without_options(acc, api):
                 return
 
 
+def script_function_failures(acc, api):
+    """Failures of the CALL of a script-defined function itself (not of something inside it) are contained like any other:
+    runaway recursion, and a script function called later through evaluate_expression with a fresh / absent options object."""
+    import sys
+    import bare_script
+    from bare_script.runtime import evaluate_expression
+    rt_err = api[2]
+    old = sys.getrecursionlimit()
+    sys.setrecursionlimit(1200)
+    try:
+        for debug in (False, True):
+            logs = []
+            text = "function rec(n):\n    return rec(n + 1)\nendfunction\nfunction twice(n):\n    return arrayNew(rec(n), 'inner continues')\nendfunction\nr = rec(0)\nreturn arrayNew(r, twice(1), 'still running')"
+            case = {'text': text, 'debug': debug}
+            acc.case(('runaway-recursion', debug), True)
+            try:
+                res = bare_script.execute_script(bare_script.parse_script(text), {'globals': {}, 'logFn': logs.append, 'debug': debug, 'maxStatements': 0})
+            except rt_err:
+                res = 'runtime-error'  # the documented error type is acceptable as well
+            except Exception as exc:  # pylint: disable=broad-except
+                acc.violation('host-exception-escaped', f'runaway recursion in a script function (debug={debug}): {type(exc).__name__}: {str(exc)[:200]}', case)
+                continue
+            acc.count('script_function_failure_checks')
+            if res != 'runtime-error' and res != [None, [None, 'inner continues'], 'still running']:
+                acc.violation('failure-value', f'runaway recursion (debug={debug}): result {res!r:.300}', case)
+    finally:
+        sys.setrecursionlimit(old)
+    g = {}
+    bare_script.execute_script(bare_script.parse_script("function addOne(x):\n    return x + 1\nendfunction\nfunction loops(n):\n    ix = 0\n    while ix < n:\n        ix = ix + 1\n    endwhile\n    return ix\nendfunction"), {'globals': g})
+    for name, args in (('addOne', [{'number': 1.0}]), ('loops', [{'number': 3.0}])):
+        expr = {'function': {'name': name, 'args': args}}
+        for label, opts, loc in (('fresh options', {'globals': g}, None), ('options with limit', {'globals': g, 'maxStatements': 5}, None),
+                                 ('no options, function in locals', None, {name: g[name]}), ('empty options, function in locals', {}, {name: g[name]})):
+            acc.case(('script-function-via-expression', name, label), True)
+            try:
+                evaluate_expression(expr, opts, loc)
+            except rt_err:
+                pass
+            except Exception as exc:  # pylint: disable=broad-except
+                acc.violation('host-exception-escaped', f'evaluate_expression calling the script function {name} with {label}: {type(exc).__name__}: {exc}', {'fn': name, 'how': label})
+                continue
+            acc.count('script_function_failure_checks')
+
+
 def data_functions_report_failures(acc, api):
     """A function failing INSIDE the expression of a data function (python API and script functions, with and without the optional
     variables object, library and host functions) is reported through logFn in debug mode exactly once per failing call, is
@@ -447,6 +492,12 @@ def fault_classes(rt_err, vae):
         'ZeroDivisionError': lambda: ZeroDivisionError('injected'),
         'RecursionError': lambda: RecursionError('injected'),
         'CustomHostError': lambda: CustomHostError('injected custom'),
+        # exceptions raised WITHOUT a message (bare `raise NotImplementedError`, a failing bare assert, MemoryError())
+        'NotImplementedError()': NotImplementedError,
+        'AssertionError()': AssertionError,
+        'MemoryError()': MemoryError,
+        'KeyError()': KeyError,
+        'StopIteration()': StopIteration,
         'ValueArgsError': lambda: vae('injected', 1, 'RV'),
         'BareScriptRuntimeError': lambda: rt_err('injected runtime error'),
     }
